@@ -471,3 +471,22 @@ impl Row {
         (prev_pos, prev_attrs)
     }
 }
+
+#[cfg(vt100_verif)]
+impl Row {
+    pub(crate) fn verif_dump(&self, out: &mut String) {
+        use std::fmt::Write as _;
+        write!(out, "{} {}", u8::from(self.wrapped), self.cells.len())
+            .unwrap();
+        let default_cell = crate::Cell::new();
+        if self.cells.iter().all(|c| c == &default_cell) {
+            out.push_str(" *");
+        } else {
+            for cell in &self.cells {
+                out.push(' ');
+                cell.verif_dump(out);
+            }
+        }
+        out.push('\n');
+    }
+}
